@@ -48,7 +48,7 @@ Tie to the current source, every run:
       (c5) in the seed-dependent blocks no class may exceed 2x its largest pinned count; the share of robust
            exact answers must be >= 0.5 (the eta filter must not empty the comparison); reach is obliged per arm
            at IEEE level (36 counters evaluated by the driver at Float/Float32, each >= 1000);
-      blocks also cover `face - pos` overflowing on every axis and side, and MID-RANGE magnitudes 1e5..2e15 with
+      blocks also cover `face - pos` overflowing on every axis and side, and MID-RANGE magnitudes 1e5..1e15 (extents 2e5/2e7/2e9) with
       unit-order directions (`fixed-mid`);
   (d) guard lattice at a SMALL TMAX: the real templates instantiated at a wrapper scalar `Small` with
       numeric_limits<Small>::max() == 4, directions {0,+-1/8,+-1/2,+-1,+-2}^3 (zero direction included), dyadic
@@ -483,13 +483,14 @@ def run_sweep(chk, binary):
         eta = "1e-9" if ft == "d" else "1e-4"
         shl = stats.get("robustLine", 0) / max(1, stats["cases"])
         shr = stats.get("robustRay", 0) / max(1, stats["cases"])
-        okshare = shl >= ROBUST_SHARE_MIN and shr >= ROBUST_SHARE_MIN
+        etas = sorted(set(re.findall(r"^eta (\S+)$", blocks, re.M)))       # what the harness actually transmitted
+        okshare = shl >= ROBUST_SHARE_MIN and shr >= ROBUST_SHARE_MIN and etas == [ETA_TEXT[ft]]
         chk.oblige("sweep:%s:robust-share(eta=%s)>=%.2f(line,ray)" % (name, eta, ROBUST_SHARE_MIN), "residue", okshare,
-                   {"line": round(shl, 4), "ray": round(shr, 4), "cases": stats["cases"]})
+                   {"line": round(shl, 4), "ray": round(shr, 4), "cases": stats["cases"], "eta_in_block_headers": etas})
         if not okshare:
             chk.fail("sweep:%s:robust-share" % name, "guard-sweep:robust-share:" + name,
                      "only %.3f / %.3f of the sweep's exact line / ray answers are robust under eta=%s erosion (minimum %.2f): the "
-                     "hit/miss comparison has lost its domain" % (shl, shr, eta, ROBUST_SHARE_MIN),
+                     "hit/miss comparison has lost its domain (or the harness requests another eta: %s)" % (shl, shr, eta, ROBUST_SHARE_MIN, etas),
                      {"robustLine": stats.get("robustLine"), "robustRay": stats.get("robustRay"), "cases": stats["cases"]}, False)
         chk.count(stats["cases"], stats.get("casesWithGuardFail", 0))
         if tiebad:
@@ -612,6 +613,7 @@ SMALL_DIRS = "0,1/8,-1/8,1/2,-1/2,1,-1,2,-2"
 SMALL_ARM_MIN = 500         # clean tree: smallest of the 24 counts is 1,610 (quick)
 SWEEP_ARM_MIN = 1000        # clean tree: smallest of the 36 counts is 2,040 (deterministic blocks alone)
 ROBUST_SHARE_MIN = 0.5      # clean tree: 0.62 .. 0.68
+ETA_TEXT = {"d": "1/1000000000", "f": "1/10000"}   # the erosion the harness must request, per type
 SEEDED_CEILING_FACTOR = 2.0
 ARM_NAMES = (["fe:%s:dir<0-fallback:%s" % (a, o) for a in "xyz" for o in ("return-false", "fall-through")] +
              ["is:%s:%s:%s" % (a, sg, w) for a in "xyz" for sg in ("dir>0", "dir<0") for w in ("back-update-skipped", "front:=TMAX")] +
@@ -712,7 +714,7 @@ def run(chk):
                        "(guard sweep, on-ray residue), not proved", "Spec/RayBoxSpec.lean states closed-box membership and the guards correctly",
                        "the eta-erosion robustness filter of the sweep (eta 1e-9 double / 1e-4 float) selects which exact answers are "
                        "compared with the code's hit/miss; its share is obliged >= 0.5; the bit-for-bit model tie does not depend on it",
-                       "no executed case has |coordinates| between 2e15 and 1e30 or a scalar type other than float, double, Small"]
+                       "no executed case has |coordinates| between 1e15 and 1e30 or a scalar type other than float, double, Small"]
     chk.rule = ("exhaustive lattice: boxes = (per-axis (min,max) pairs incl. flat and inverted)^3, origins [-2,2]^3, directions "
                 "[-2,2]^3 minus 0, translated/scaled by a VERIF_SEED-chosen integer offset and power of two; non-trivial = results "
                 "that are true.  Non-dyadic lattice: directions {0,+-1,+-3,+-5,+-7}^3 minus 0, integer origins/boxes, deterministic; "
@@ -721,7 +723,7 @@ def run(chk):
                 "exact; non-trivial = true results; all 18 guard-fail arms have obliged hit counts.  Guard sweep: 12^3 extreme directions "
                 "(+0 and -0 components, the zero directions included) x <=125 origins x boxes; non-trivial = robust exact answers (oracle part), cases with a failing "
                 "guard (model@Float tie part); per-class counts of the deterministic blocks pinned, 2x ceiling on seeded blocks; one mid-magnitude "
-                "block (1e5..2e15, unit-order directions)")
+                "block (1e5..1e15, unit-order directions)")
     okd, out = build_driver()
     chk.oblige("build:drv_raybox", "build", okd, None if okd else out[-800:])
     ok, binary, o = lib.cxx_build("raybox_corr", ["corr/raybox_corr.cpp"])
